@@ -37,7 +37,7 @@ use common::*;
 
 const RULE: &str = "a case is non-trivial if it is not a verbatim valid document: a mutated / random / hostile text, a document that reaches a later stage (check, printers), a rendered diagnostic, a config text or a loader call sequence (distinct by text)";
 /// per-case time bound (debug build of the real code)
-const TIME_BOUND_MS: u128 = 4000;
+const TIME_BOUND_MS: u128 = 60000; // generous: a bound on termination, not a performance test (machine load must not raise alarms)
 
 // ------------------------------------------------------------------------------------------------
 // panic sites: the hook records file:line of the last panic of this thread's process
@@ -137,6 +137,7 @@ impl<'a> Ctx<'a> {
     fn render_parse_error(&mut self, kind: &str, text: &str, case: &Value) {
         let (k, t) = (kind.to_string(), text.to_string());
         let r = catch(move || {
+            nitrogql_ast::set_current_file_of_pos(0);
             let e: Option<PositionedError> = if k == "op" { parse_operation_document(&t).err().map(Into::into) } else { parse_type_system_document(&t).err().map(Into::into) };
             e.map(|e| {
                 let files = vec![(PathBuf::from("/p/x.graphql"), t.clone(), ())];
@@ -559,7 +560,7 @@ fn main() {
     }
     ctx.pipeline("type Query { a: A f: Int } type A { x: Int }", &["fragment F on A { nonexistent }".to_string(), "query Q { n: a { x } n: f }".to_string(), "{ a { x } }".to_string(), "query { ...Missing }".to_string()], "corpus");
 
-    let n_schemas = if search { 600 } else { args.budget(90, 900) };
+    let n_schemas = if search { 600 } else { args.budget(260, 1500) };
     let mut parse_batch: Vec<(&'static str, String, String)> = vec![];
     for i in 0..n_schemas {
         let cfg = GenCfg { hostile_text: i % 3 == 0, max_depth: 2 + rng.below(2), ..GenCfg::default() };
@@ -602,9 +603,9 @@ fn main() {
         }
     }
     ctx.parse_stream(&parse_batch);
-    ctx.render_stream(&mut rng, args.budget(300, 3000));
+    ctx.render_stream(&mut rng, args.budget(600, 6000));
     // configs: mutations of the fixed texts
-    for _ in 0..args.budget(300, 3000) {
+    for _ in 0..args.budget(600, 6000) {
         let base = CONFIG_TEXTS[rng.below(CONFIG_TEXTS.len())];
         let t = match rng.below(3) {
             0 => mutate::mutate(&mut rng, base).0,
@@ -614,7 +615,7 @@ fn main() {
         ctx.config_case(&t);
     }
     let slow = ctx.slowest.clone();
-    let lc = loader_cases(&mut rng, args.budget(250, 2500));
+    let lc = loader_cases(&mut rng, args.budget(500, 5000));
     loader_stream(&mut rep, &lc);
     rep.extra.insert("slowest_case_ms".into(), json!({"ms": slow.0 as u64, "what": slow.1}));
     rep.extra.insert("time_bound_ms".into(), json!(TIME_BOUND_MS as u64));
